@@ -70,6 +70,37 @@ Definition tanh_normal_like : dcap :=
 Lemma interact_table_before_fix_refuted : exists it d, dist_sample_gen false it d <> spec_sample it d.
 Proof. exists TMean, tanh_normal_like. vm_compute. discriminate. Qed.
 
+(* ------------------------------------------------------------------ wrapped distributions *)
+Lemma one_step_lookup : forall ls b, one_step ls = true -> lookup_reg ls b = spec_reg ls b.
+Proof.
+  intros [|[|r] [|[|r'] ls]] b H; cbn in *; try reflexivity; discriminate.
+Qed.
+
+(* the decision for a wrapped distribution is the documented table evaluated with the registration of the UNWRAPPED base *)
+Lemma interact_table_wrapped : forall it ls b, one_step ls = true -> dist_sample_w it ls b = spec_sample_w it ls b.
+Proof.
+  intros it ls b H. unfold dist_sample_w, dist_sample_w_gen, spec_sample_w, lookup_gen.
+  rewrite (one_step_lookup ls b H). apply interact_table.
+Qed.
+
+(* ... it depends on the base's registration only: the registration of the wrapper class plays no role *)
+Lemma interact_wrapped_reg_only : forall it b,
+  dist_sample_w it [LIndep] b = dist_sample it (with_reg (reg b) (caps [LIndep] b)).
+Proof. reflexivity. Qed.
+
+(* two Independent layers: the lookup finds D.Independent's own entry (MODE) instead of the base's *)
+Definition lognormal_like : dcap :=
+  {| is_lkj := false; has_det := false; reg := Some TMean; support_real := Some false; c_mode := CValue; c_median := CAttrErr;
+     c_mean := CValue; has_rsample := true |}.
+Lemma interact_table_wrapped_refuted_nested : exists it ls b, dist_sample_w it ls b <> spec_sample_w it ls b.
+Proof. exists TDeterministic, [LIndep; LIndep], lognormal_like. vm_compute. discriminate. Qed.
+
+(* a lookup under type(dist) (no unwrapping) is refuted already with one layer *)
+Lemma interact_lookup_unwrapped_needed : dist_sample_w_gen false TDeterministic [LIndep] lognormal_like = AMode
+  /\ dist_sample_w TDeterministic [LIndep] lognormal_like = AMean
+  /\ spec_sample_w TDeterministic [LIndep] lognormal_like = AMean.
+Proof. repeat split; reflexivity. Qed.
+
 (* _requires_sample = "some sample key of the final module is not produced upstream" *)
 Lemma requires_sample_spec : forall ks up,
   requires_sample (Some ks) up = true <-> exists k, List.In k ks /\ ~ List.In k up.
